@@ -354,6 +354,10 @@ def lighten(it, check, ft, keep):
                  params=it.get("params"))
     if it["games"] is not None:
         light["problems"] = check((it["case"], it["games"]))
+        if it["res"].get("first_same") is False:
+            light["problems"] = list(light["problems"]) + ["writing the same board objects twice in one process gives two different files"]
+        if it["res"].get("args_intact") is False:
+            light["problems"] = list(light["problems"]) + ["the generator changed the board it was given (its argument lists are no longer what the caller passed)"]
         if it["model"]:
             light["term"], light["term_err"] = render(it, ft)
         if keep:
